@@ -77,7 +77,12 @@ def call(fc, p1=None, p2=None):
         kw["first_component_permeance"], kw["second_component_permeance"] = p1, p2
     try:
         with guards.budget(SOFT_BUDGET), guards.tap() as taps:
-            j = fc.pv.calculate_partial_fluxes(**kw)
+            if int(float(fc.precision).hex()[4:9], 16) % 3 == 0:
+                # a third of the cases call positionally, in the released order of the parameters
+                j = fc.pv.calculate_partial_fluxes(kw["feed_temperature"], kw["composition"], kw["precision"], kw["permeate_temperature"], kw["permeate_pressure"],
+                                                   kw.get("first_component_permeance"), kw.get("second_component_permeance"), kw["calculation_type"])
+            else:
+                j = fc.pv.calculate_partial_fluxes(**kw)
         return "ok", (float(j[0]), float(j[1])), list(taps)
     except guards.BudgetExceeded:
         return "slow", None, None
